@@ -136,6 +136,41 @@ func (e *Engine) execBlockFrom(fr *frame, b *ssa.BasicBlock, start int, st *St, 
 		if p := in.Pos(); p.IsValid() {
 			e.posStack[top] = p
 		}
+		if fr.forkMode && e.booting == 0 {
+			// fork mode keeps indices concrete: an index whose value is a small ite tree over
+			// constants splits the path, one continuation per feasible leaf value
+			var ixv ssa.Value
+			switch x := in.(type) {
+			case *ssa.IndexAddr:
+				ixv = x.Index
+			case *ssa.Index:
+				ixv = x.Index
+			}
+			if ixv != nil {
+				if _, isConst := ixv.(*ssa.Const); !isConst {
+					if t, ok := e.val(st, ixv).(*T); ok && !t.IsConst() && t.ConstLeaves() && len(t.LeafVals()) >= 2 && len(t.LeafVals()) <= 32 {
+						leaves := t.LeafVals()
+						for k, lv := range leaves {
+							c := e.S.Const(lv, t.W)
+							pc := e.S.And(st.pc, e.S.Eq(t, c))
+							if pc.IsFalse() || !e.feasible(pc) {
+								continue
+							}
+							var cont *St
+							if k == len(leaves)-1 {
+								cont = st
+							} else {
+								cont = st.fork()
+							}
+							cont.pc = pc
+							cont.env[ixv] = c
+							e.execBlockFrom(fr, b, idx, cont, deliver)
+						}
+						return
+					}
+				}
+			}
+		}
 		if fn := e.forkCallee(fr, in); fn != nil {
 			call := in.(*ssa.Call)
 			args := make([]Value, len(call.Call.Args))
